@@ -991,7 +991,7 @@ def parse_stage_a(ctx):
             # the properties must be able to fail: TLC refutes the "one remembered result per wire" deviation
             ('memo1', {'Dev': '"memo"'}, dict(properties=['ParseReturnsIssued'])),
             ('memo2', {'Dev': '"memo"'}, dict(properties=['Independent']))]
-    jobs += [(w, {}, dict(invariants=[w])) for w in ('W_ReparseAfterEdit', 'W_EditWhileTwoHeld', 'W_TwoCerts')]
+    jobs += [('wit', {'MaxSteps': 5}, dict(invariants=['W_All']))]
     with ThreadPoolExecutor(max_workers=len(jobs)) as ex:
         res = list(ex.map(lambda j: job(*j[:2], **j[2]), jobs))
     r = res[0]
